@@ -30,7 +30,10 @@ HASHES = {
     "shake128": lambda d: hashlib.shake_128(d).digest(16), "shake256": lambda d: hashlib.shake_256(d).digest(32),
 }
 KIDS = [0, 1, 23, 24, 255, 256, 65535, 65536, 2**31 - 1, 2**31, 2**32 - 1, 0x40022000]
-SIZES = [0, 1, 15, 16, 17, 31, 32, 4096, 65537]
+# key ids whose DECIMAL spelling has eight digits / looks like hex digits / has a leading zero form: the command line spells ids in decimal or 0x-hex
+CLI_KIDS = [16777216, 12345678, 99999999, 10000000, 40022000, 11, 100, 4294967295, 0]
+SIZES = [0, 1, 15, 16, 17, 31, 32, 4096, 65535, 65536, 65537, 131072]
+BIG_SIZES = [1048575, 1048576, 1048577, 2 * 1048576 + 5]  # around one MiB (chunked processing), judged once per digest algorithm
 FILES = ["encrypted_content.bin", "suit_encryption_info.bin", "plain_text_digest.bin", "plain_text_size.txt"]
 
 
@@ -135,7 +138,7 @@ def run_encrypt(step, d, outdir, key, route, holder=None):
         with open(fw, "wb") as fh:
             fh.write(pt)
         if route == "cli":
-            ok, r = sut.cli_ok(["encrypt", "encrypt-and-generate", "--firmware", fw, "--key-name", kname, "--key-id", hex(step["kid"]), "--context", kd,
+            ok, r = sut.cli_ok(["encrypt", "encrypt-and-generate", "--firmware", fw, "--key-name", kname, "--key-id", str(step["kid"]) if step.get("kid_spelling", "dec") == "dec" else hex(step["kid"]), "--context", kd,
                                 "--output-dir", outdir, "--hash-alg", step["hash"], "--kms-script", sut.KMS_SCRIPT(), "--encrypt-script", sut.ENCRYPT_SCRIPT()], d)
             if not ok:
                 raise RuntimeError(f"CLI exit {r.returncode}: {r.stderr[-300:]}")
@@ -171,7 +174,7 @@ def run_encrypt(step, d, outdir, key, route, holder=None):
             with open(os.path.join(outdir, name), "wb") as fh:
                 fh.write(data_)
     elif route == "cli":
-        ok, r = sut.cli_ok(["encrypt", "generate-info", "--encrypted-firmware", ef, "--encrypted-key", ekf, "--key-id", str(step["kid"]), "--kw-alg", step["kw"],
+        ok, r = sut.cli_ok(["encrypt", "generate-info", "--encrypted-firmware", ef, "--encrypted-key", ekf, "--key-id", str(step["kid"]) if step.get("kid_spelling", "dec") == "dec" else hex(step["kid"]), "--kw-alg", step["kw"],
                             "--output-dir", outdir, "--encrypt-script", sut.ENCRYPT_SCRIPT()], d)
         if not ok:
             raise RuntimeError(f"CLI exit {r.returncode}: {r.stderr[-300:]}")
@@ -314,10 +317,10 @@ def step_s():
     from hypothesis import strategies as st
 
     size = st.one_of(st.sampled_from(SIZES), st.integers(0, 300), st.integers(0, 20000))
-    kid = st.one_of(st.sampled_from(KIDS), st.integers(0, 2**32 - 1))
-    enc = st.fixed_dictionaries({"sub": st.just("encrypt"), "size": size, "salt": st.integers(0, 10**6), "kid": kid, "hash": st.sampled_from(list(HASHES)),
+    kid = st.one_of(st.sampled_from(KIDS), st.sampled_from(CLI_KIDS), st.integers(0, 2**32 - 1), st.integers(10**7, 10**8 - 1))
+    enc = st.fixed_dictionaries({"sub": st.just("encrypt"), "size": size, "salt": st.integers(0, 10**6), "kid": kid, "kid_spelling": st.sampled_from(["dec", "dec", "hex"]), "hash": st.sampled_from(list(HASHES)),
                                  "kname": st.sampled_from(["FWENC", "FWENC", "fw_enc.v2", "a.b.c", "key 1", "FWENC_APPLICATION_GEN1"])})
-    gen = st.fixed_dictionaries({"sub": st.just("geninfo"), "size": size, "salt": st.integers(0, 10**6), "kid": kid, "kw": st.sampled_from(["direct", "direct", "aes-kw-256"]),
+    gen = st.fixed_dictionaries({"sub": st.just("geninfo"), "size": size, "salt": st.integers(0, 10**6), "kid": kid, "kid_spelling": st.sampled_from(["dec", "dec", "hex"]), "kw": st.sampled_from(["direct", "direct", "aes-kw-256"]),
                                  "eklen": st.sampled_from([0, 1, 24, 40])}).map(lambda s: {**s, "eklen": max(s["eklen"], 24) if s["kw"] == "aes-kw-256" else s["eklen"]})
     return st.one_of(enc, enc, gen)
 
@@ -349,9 +352,28 @@ def run_shard(ctx, spec):
                     except Violation as v:
                         if not any(f["bucket"] == v.bucket for f in acc.failures):
                             acc.fail("grid", case, v.observed, v.expected, bucket=v.bucket)
+        for j, size in enumerate(BIG_SIZES):
+            for h in HASHES:
+                case = {"steps": [{"sub": "encrypt", "size": size, "salt": size, "kid": KIDS[j], "hash": h}], "reuse": False, "route": "main" if j % 2 else "lib", "key": key}
+                try:
+                    judge(case, acc, ctx)
+                except Violation as v:
+                    if not any(f["bucket"] == v.bucket for f in acc.failures):
+                        acc.fail("grid", case, v.observed, v.expected, bucket=v.bucket)
         acc.info["grid_exhaustive"] = True
         return acc
     route = spec["route"]
+    if route == "cli":
+        # the command line spells key ids as text: every id of CLI_KIDS in decimal through both sub-commands, a few in 0x-hex
+        for j, kid in enumerate(CLI_KIDS):
+            steps = [{"sub": "encrypt", "size": 33, "salt": j, "kid": kid, "kid_spelling": "dec", "hash": "sha-256"},
+                     {"sub": "geninfo", "size": 5, "salt": j, "kid": kid, "kid_spelling": "dec" if j % 3 else "hex", "kw": "direct", "eklen": 0}]
+            case = {"steps": steps[: 1 + (j % 2)], "reuse": True, "route": "cli", "key": key}
+            try:
+                judge(case, acc, ctx)
+            except Violation as v:
+                if not any(f["bucket"] == v.bucket for f in acc.failures):
+                    acc.fail("encrypt", case, v.observed, v.expected, bucket=v.bucket)
     # the key file holds 32 raw bytes - any 32 bytes: also ones that look like text, hex digits, or begin/end with white space or NUL
     key_s = st.one_of(st.binary(min_size=32, max_size=32), st.binary(min_size=32, max_size=32), st.sampled_from(SPECIAL_KEYS))
     strat = st.tuples(st.lists(step_s(), min_size=1, max_size=3), st.booleans(), key_s).map(
@@ -372,7 +394,7 @@ def replay(ctx, check, case):
 
 def finalize(ctx, m, ev):
     c = m["counters"]
-    ev["coverage"]["exhaustive_scope"] = "size x digest algorithm x key id grid (9 x 5 x 12) enumerated completely; sequences sampled"
+    ev["coverage"]["exhaustive_scope"] = "size x digest algorithm x key id grid (12 x 5 x 12, plus four sizes around 1 MiB x 5) enumerated completely; sequences sampled"
     need = ["sub:encrypt", "sub:geninfo", "route:cli", "route:lib", "reused-output-dir", "size:0", "size:65537", "kw:aes-kw-256", "kw:direct", "key-name-with-dot", "key:all-hex-digits", "key:edge-blank-or-nul", "encryptor-reused:aes-kw-256->direct"] + [f"hash:{h}" for h in HASHES]
     for n in need:
         if not c.get(n):
